@@ -14,6 +14,11 @@
 //           Bi:<c>     SetBuffer(nullptr, c)
 //           Bu<k>:<c>  SetBuffer(base + k, c) on a new exact-size heap block
 //           "="        no operations
+//   M <n> <schedule> <spec> <capacity> <ops> ... (n times)
+//     n framers (n <= 4) alive in this process at the same time, each with its own buffer, operations and callback
+//     function.  <schedule> is a string of digits: digit i = execute the next operation of framer i (operations left
+//     over run afterwards, framer by framer).  Answer: the n answers joined by tab characters - each must be what
+//     the single-framer request `<spec> <capacity> <ops>` answers: framer objects are independent of each other.
 //
 // Answer: the same text the Lean model prints for `rtcm <spec> <capacity> <ops>`:
 //   C|<state>;D|<callbacks>|<return>|<state>;R|<state>;...      followed by " " and "ok" or a list of harness-side
@@ -35,10 +40,21 @@
 
 using point_one::rtcm::RTCMFramer;
 
-static RTCMFramer* g_framer = nullptr;
-static std::ostringstream g_cbs;
-static bool g_first_cb = true;
-static std::string g_complaints;
+// Up to MAX_UNITS framer objects can be alive at the same time (request form "M", see below); each has its own
+// callback function (the callback type is a plain function pointer without a context argument) and its own record.
+static const int MAX_UNITS = 4;
+struct Unit {
+  RTCMFramer* f = nullptr;
+  std::ostringstream out;
+  std::ostringstream cbs;
+  bool first_cb = true;
+  std::string complaints;
+  std::vector<void*> blocks;
+  std::vector<std::string> ops;
+  size_t next_op = 0;
+  bool bad = false;
+};
+static Unit* g_units[MAX_UNITS] = {nullptr, nullptr, nullptr, nullptr};
 
 static uint64_t Fnv64(const uint8_t* p, size_t n) {
   uint64_t h = 0xcbf29ce484222325ULL;
@@ -49,15 +65,19 @@ static uint64_t Fnv64(const uint8_t* p, size_t n) {
   return h;
 }
 
+template <int I>
 static void Callback(uint16_t type, const void* data, size_t len) {
+  Unit* u = g_units[I];
+  if (u == nullptr) return;
   const uint8_t* p = static_cast<const uint8_t*>(data);
-  if (!g_first_cb) g_cbs << "/";
-  g_first_cb = false;
+  if (!u->first_cb) u->cbs << "/";
+  u->first_cb = false;
   // Reads every byte handed to the callback: ASan checks [data, data + len).
-  g_cbs << type << ":" << len << ":" << Fnv64(p, len);
-  if (g_framer != nullptr && p != g_framer->buffer_) g_complaints += "callback-pointer-not-buffer,";
-  if (reinterpret_cast<uintptr_t>(p) % 4 != 0) g_complaints += "callback-pointer-misaligned,";
+  u->cbs << type << ":" << len << ":" << Fnv64(p, len);
+  if (u->f != nullptr && p != u->f->buffer_) u->complaints += "callback-pointer-not-buffer,";
+  if (reinterpret_cast<uintptr_t>(p) % 4 != 0) u->complaints += "callback-pointer-misaligned,";
 }
+static const RTCMFramer::MessageCallback kCallbacks[MAX_UNITS] = {Callback<0>, Callback<1>, Callback<2>, Callback<3>};
 
 static std::string StateText(const RTCMFramer& f) {
   std::ostringstream o;
@@ -84,80 +104,136 @@ static bool ParseHex(const std::string& s, std::vector<uint8_t>* out) {
 }
 
 // "u<k>" -> exact-size heap block, returns base + k.
-static uint8_t* UserBuffer(size_t k, size_t capacity, std::vector<void*>* blocks) {
+static uint8_t* UserBuffer(Unit* u, size_t k, size_t capacity) {
   uint8_t* base = static_cast<uint8_t*>(malloc(k + capacity == 0 ? 1 : k + capacity));
   if (reinterpret_cast<uintptr_t>(base) % 4 != 0) {
-    g_complaints += "malloc-not-4-aligned,";
+    u->complaints += "malloc-not-4-aligned,";
   }
-  blocks->push_back(base);
+  u->blocks.push_back(base);
   return base + k;
+}
+
+// Constructs the framer of unit `index`.
+static bool Construct(int index, const std::string& spec, unsigned long long capacity, const std::string& ops_text) {
+  Unit* u = new Unit();
+  g_units[index] = u;
+  if (spec == "i") {
+    u->f = new RTCMFramer(static_cast<size_t>(capacity));
+  } else if (spec == "n") {
+    u->f = new RTCMFramer();
+  } else if (spec.size() >= 2 && spec[0] == 'u') {
+    size_t k = strtoull(spec.c_str() + 1, nullptr, 10);
+    u->f = new RTCMFramer(UserBuffer(u, k, capacity), static_cast<size_t>(capacity));
+  } else {
+    return false;
+  }
+  u->f->SetMessageCallback(kCallbacks[index]);
+  u->out << "C|" << StateText(*u->f);
+  if (ops_text != "=") {
+    std::istringstream ops(ops_text);
+    std::string op;
+    while (std::getline(ops, op, ',')) u->ops.push_back(op);
+  }
+  return true;
+}
+
+// Executes the next operation of a unit (nothing if it has none left).
+static void Step(Unit* u) {
+  if (u->bad || u->next_op >= u->ops.size()) return;
+  const std::string& op = u->ops[u->next_op++];
+  RTCMFramer* f = u->f;
+  std::ostringstream& out = u->out;
+  out << ";";
+  if (op == "R") {
+    f->Reset();
+    out << "R|" << StateText(*f);
+  } else if (op == "Q" || op == "q") {
+    f->WarnOnError(op == "q");
+    out << op << "|" << StateText(*f);
+  } else if (op.size() >= 2 && op[0] == 'B') {
+    size_t colon = op.find(':');
+    if (colon == std::string::npos) { u->bad = true; return; }
+    size_t c = strtoull(op.c_str() + colon + 1, nullptr, 10);
+    if (op[1] == 'i') {
+      f->SetBuffer(nullptr, c);
+    } else if (op[1] == 'u') {
+      size_t k = strtoull(op.c_str() + 2, nullptr, 10);
+      f->SetBuffer(UserBuffer(u, k, c), c);
+    } else { u->bad = true; return; }
+    out << "B|" << StateText(*f);
+  } else {
+    std::vector<uint8_t> data;
+    if (op != "-" && !ParseHex(op, &data)) { u->bad = true; return; }
+    // The input is an exact-size heap block as well (reads past the caller's data are caught).
+    uint8_t* copy = static_cast<uint8_t*>(malloc(data.empty() ? 1 : data.size()));
+    if (!data.empty()) memcpy(copy, data.data(), data.size());
+    u->cbs.str("");
+    u->first_cb = true;
+    size_t ret = f->OnData(copy, data.size());
+    free(copy);
+    out << "D|" << u->cbs.str() << "|" << ret << "|" << StateText(*f);
+  }
+}
+
+// Destroys the framer of a unit and returns its answer text.
+static std::string Finish(int index) {
+  Unit* u = g_units[index];
+  if (u == nullptr) return "bad-args";
+  RTCMFramer* f = u->f;
+  u->f = nullptr;
+  delete f;
+  for (void* b : u->blocks) free(b);
+  std::string r = u->bad ? std::string("bad-args") : u->out.str() + " " + (u->complaints.empty() ? "ok" : u->complaints);
+  g_units[index] = nullptr;
+  delete u;
+  return r;
 }
 
 static std::string RunLine(const std::string& line) {
   std::istringstream in(line);
-  std::string spec, ops_text;
-  unsigned long long capacity = 0;
-  if (!(in >> spec >> capacity >> ops_text)) return "bad-args";
-  std::vector<void*> blocks;
-  std::ostringstream out;
-  g_complaints.clear();
-  RTCMFramer* f = nullptr;
-  if (spec == "i") {
-    f = new RTCMFramer(static_cast<size_t>(capacity));
-  } else if (spec == "n") {
-    f = new RTCMFramer();
-  } else if (spec.size() >= 2 && spec[0] == 'u') {
-    size_t k = strtoull(spec.c_str() + 1, nullptr, 10);
-    f = new RTCMFramer(UserBuffer(k, capacity, &blocks), static_cast<size_t>(capacity));
-  } else {
-    return "bad-args";
-  }
-  g_framer = f;
-  f->SetMessageCallback(Callback);
-  out << "C|" << StateText(*f);
-  bool bad = false;
-  if (ops_text != "=") {
-    std::istringstream ops(ops_text);
-    std::string op;
-    while (std::getline(ops, op, ',')) {
-      out << ";";
-      if (op == "R") {
-        f->Reset();
-        out << "R|" << StateText(*f);
-      } else if (op == "Q" || op == "q") {
-        f->WarnOnError(op == "q");
-        out << op << "|" << StateText(*f);
-      } else if (op.size() >= 2 && op[0] == 'B') {
-        size_t colon = op.find(':');
-        if (colon == std::string::npos) { bad = true; break; }
-        size_t c = strtoull(op.c_str() + colon + 1, nullptr, 10);
-        if (op[1] == 'i') {
-          f->SetBuffer(nullptr, c);
-        } else if (op[1] == 'u') {
-          size_t k = strtoull(op.c_str() + 2, nullptr, 10);
-          f->SetBuffer(UserBuffer(k, c, &blocks), c);
-        } else { bad = true; break; }
-        out << "B|" << StateText(*f);
-      } else {
-        std::vector<uint8_t> data;
-        if (op != "-" && !ParseHex(op, &data)) { bad = true; break; }
-        // The input is an exact-size heap block as well (reads past the caller's data are caught).
-        uint8_t* copy = static_cast<uint8_t*>(malloc(data.empty() ? 1 : data.size()));
-        if (!data.empty()) memcpy(copy, data.data(), data.size());
-        g_cbs.str("");
-        g_first_cb = true;
-        size_t ret = f->OnData(copy, data.size());
-        free(copy);
-        out << "D|" << g_cbs.str() << "|" << ret << "|" << StateText(*f);
+  std::string first;
+  if (!(in >> first)) return "bad-args";
+  if (first == "M") {
+    // Several framers alive at once: all are constructed, then the schedule says whose next operation runs, then
+    // whatever is left runs unit by unit, then all are destroyed.  One answer text per unit, joined by tabs.
+    int n = 0;
+    std::string sched;
+    if (!(in >> n >> sched) || n < 1 || n > MAX_UNITS) return "bad-args";
+    bool ok = true;
+    int built = 0;
+    for (int i = 0; i < n && ok; ++i) {
+      std::string spec, ops_text;
+      unsigned long long capacity = 0;
+      if (!(in >> spec >> capacity >> ops_text)) { ok = false; break; }
+      ok = Construct(i, spec, capacity, ops_text);
+      built = i + 1;
+    }
+    if (ok) {
+      for (char c : sched) {
+        int i = c - '0';
+        if (i >= 0 && i < n) Step(g_units[i]);
+      }
+      for (int i = 0; i < n; ++i) {
+        while (!g_units[i]->bad && g_units[i]->next_op < g_units[i]->ops.size()) Step(g_units[i]);
       }
     }
+    std::string r;
+    // destroyed in reverse order of construction
+    std::vector<std::string> texts(built);
+    for (int i = built - 1; i >= 0; --i) texts[i] = Finish(i);
+    if (!ok) return "bad-args";
+    for (int i = 0; i < n; ++i) r += (i ? "\t" : "") + texts[i];
+    return r;
   }
-  g_framer = nullptr;
-  delete f;
-  for (void* b : blocks) free(b);
-  if (bad) return "bad-args";
-  out << " " << (g_complaints.empty() ? "ok" : g_complaints);
-  return out.str();
+  std::string ops_text;
+  unsigned long long capacity = 0;
+  if (!(in >> capacity >> ops_text)) return "bad-args";
+  if (!Construct(0, first, capacity, ops_text)) {
+    Finish(0);
+    return "bad-args";
+  }
+  while (!g_units[0]->bad && g_units[0]->next_op < g_units[0]->ops.size()) Step(g_units[0]);
+  return Finish(0);
 }
 
 int main() {
